@@ -40,7 +40,8 @@ CONSTANTS NApps,      \* applications of the operator object (1 = C24)
           ReUnsub,    \* TRUE: a subscriber may be unsubscribed more than once
           StaleDisc,  \* TRUE: the handle of the previous connection may be disposed again
           Modes,      \* subscriber modes: "all" (plain recorder), "once" (subscribes through take(1): it unsubscribes
-                      \* itself from inside the delivery of its first element) - shared-subject variants without a
+                      \* itself from inside the delivery of its first element), "spawn" (on its first element it subscribes
+                      \* another observer to the same observable, re-entrantly) - shared-subject variants without a
                       \* replay window only (with the subject on the virtual clock the reaction is a later same-instant
                       \* hop, whose order relative to further source events of that instant the statement leaves open)
           MinLen      \* a history ends after at least this many commands (0 when exhaustive; > 0 steers -simulate,
@@ -102,7 +103,8 @@ S0 == [now |-> 0, nextId |-> 1, asked |-> {},
        sapp |-> [k \in SubIds |-> 0], live |-> [k \in SubIds |-> FALSE], out |-> [k \in SubIds |-> <<>>],
        from |-> [k \in SubIds |-> 0], till |-> [k \in SubIds |-> NEVER],
        subAt |-> [k \in SubIds |-> 0], unsubAt |-> [k \in SubIds |-> NEVER], psub |-> [k \in SubIds |-> 0],
-       mode |-> [k \in SubIds |-> "all"]]
+       mode |-> [k \in SubIds |-> "all"],
+       child |-> [k \in SubIds |-> 0], spawned |-> [k \in SubIds |-> FALSE]]   \* "spawn" subscribers: see SubjSub
 
 (* ---- ConnectableObservable ------------------------------------------------------------------ *)
 \* connect(): not connected => open ONE source subscription into the subject; else the existing connection
@@ -124,6 +126,17 @@ Leave(Z, a, n, t) ==
   ELSE LET Z1 == [Z EXCEPT !.rc[a] = @ - n] IN IF Z1.rc[a] = 0 THEN Disconnect(Z1, a, t) ELSE Z1
 
 (* ---- the shared subject ------------------------------------------------------------------------ *)
+\* A "spawn" subscriber k reacts to the FIRST element it receives by subscribing another observer (child[k], a
+\* plain recorder) to the same multicast observable - a re-entrant subscribe from inside a delivery.  When that
+\* element is the current / first replayed value, the nested subscribe runs while k itself is still being
+\* subscribed: after k's count bookkeeping and subject subscription, BEFORE k's own connect decision.
+RECURSIVE SubCmd(_, _, _, _, _)
+Spawn(Z, a, k, t) == SubCmd([Z EXCEPT !.spawned[k] = TRUE], a, Z.child[k], t, "all")
+RECURSIVE SpawnAll(_, _, _, _)
+SpawnAll(Z, a, ks, t) ==
+  IF ks = {} THEN Z
+  ELSE LET k == CHOOSE x \in ks : \A y \in ks : x <= y IN SpawnAll(Spawn(Z, a, k, t), a, ks \ {k}, t)
+
 SubjSub(Z, a, k, t) ==
   LET st  == Z.stopped[a]
       Z0  == [Z EXCEPT !.from[k] = Len(Z.slog[a]), !.subAt[k] = t]
@@ -133,9 +146,10 @@ SubjSub(Z, a, k, t) ==
                [] OTHER                -> [j \in 1..Len(q2) |-> Stamp(t, "N", q2[j].v)]
   IN IF Z.mode[k] = "once" /\ pre # <<>>      \* take(1) is satisfied by the current / first replayed value
      THEN [Z0 EXCEPT !.out[k] = <<pre[1], Stamp(t, "C", 0)>>, !.till[k] = Len(Z.slog[a]), !.queue[a] = q2]
-     ELSE IF st = "no"
-     THEN [Z0 EXCEPT !.out[k] = pre, !.live[k] = TRUE, !.members[a] = @ \cup {k}, !.queue[a] = q2]
-     ELSE [Z0 EXCEPT !.out[k] = Append(pre, Stamp(t, st, 0)), !.till[k] = Len(Z.slog[a]), !.queue[a] = q2]
+     ELSE LET Zr == IF st = "no"
+                    THEN [Z0 EXCEPT !.out[k] = pre, !.live[k] = TRUE, !.members[a] = @ \cup {k}, !.queue[a] = q2]
+                    ELSE [Z0 EXCEPT !.out[k] = Append(pre, Stamp(t, st, 0)), !.till[k] = Len(Z.slog[a]), !.queue[a] = q2]
+          IN IF Z.mode[k] = "spawn" /\ pre # <<>> THEN Spawn(Zr, a, k, t) ELSE Zr
 
 \* the connection delivers source event e to the shared subject at instant t
 FeedShared(Z, a, e, t) ==
@@ -149,7 +163,10 @@ FeedShared(Z, a, e, t) ==
                     !.members[a] = @ \ gone,
                     !.live = [k \in SubIds |-> IF k \in gone THEN FALSE ELSE Z.live[k]],
                     !.till = [k \in SubIds |-> IF k \in gone THEN Len(Z.slog[a]) + 1 ELSE Z.till[k]]]
-          IN Leave(Z1, a, Cardinality(gone), t)
+              \* "spawn" subscribers seeing their first element subscribe their child from inside this delivery
+              \* (the child is not in the subject's snapshot: it gets the current / replayed value, not this call)
+              sp == {k \in Z.members[a] : Z.mode[k] = "spawn" /\ ~Z.spawned[k]}
+          IN SpawnAll(Leave(Z1, a, Cardinality(gone), t), a, sp, t)
   ELSE \* the source terminated: its subscription is released; the subject stops (once); its observers leave
      LET Z1 == CloseConn(Z, a, t) IN
      IF Z1.stopped[a] # "no" THEN Z1
@@ -176,7 +193,8 @@ PrivTerm(Z, a, k, kd, t) ==
 
 (* ---- commands ------------------------------------------------------------------------------------ *)
 SubCmd(Z, a, k, t, m) ==
-  LET Z0 == [Z EXCEPT !.sapp[k] = a, !.mode[k] = m, !.nextId = IF k >= @ THEN k + 1 ELSE @] IN
+  LET Z0 == [Z EXCEPT !.sapp[k] = a, !.mode[k] = m, !.child[k] = IF m = "spawn" THEN k + 1 ELSE 0,
+                      !.nextId = LET n == IF m = "spawn" THEN k + 2 ELSE k + 1 IN IF n > @ THEN n ELSE @] IN
   IF kind.mp # "none" THEN
      LET Z1 == [Z0 EXCEPT !.live[k] = TRUE, !.subAt[k] = t]
          Z2 == IF kind.sk = "behavior" THEN PrivNext(Z1, a, k, INITV, t) ELSE Z1
@@ -184,12 +202,12 @@ SubCmd(Z, a, k, t, m) ==
      IN IF Z3.live[k] THEN Z3 ELSE ClosePriv(Z3, a, k, t)
   ELSE CASE kind.wr = "none" -> SubjSub(Z0, a, k, t)
          [] kind.wr = "ref_count" ->
-              (LET Z1 == SubjSub([Z0 EXCEPT !.rc[a] = @ + 1], a, k, t)
-                   Z2 == IF Z.rc[a] = 0 THEN Connect(Z1, a, t) ELSE Z1       \* 0 -> 1
+              (LET Z1 == SubjSub([Z0 EXCEPT !.rc[a] = @ + 1], a, k, t)      \* may contain a nested subscribe (spawn)
+                   Z2 == IF Z.rc[a] = 0 THEN Connect(Z1, a, t) ELSE Z1       \* 0 -> 1: decided on the count k found
                IN IF Z2.live[k] THEN Z2 ELSE Leave(Z2, a, 1, t))              \* the subject had stopped: k is gone again
          [] OTHER ->   \* auto_connect(n): "connect() after that many subscriptions occur" - cumulative, never disconnects
               (LET Z1 == SubjSub([Z0 EXCEPT !.total[a] = @ + 1], a, k, t)
-               IN IF Z1.total[a] = kind.n THEN Connect(Z1, a, t) ELSE Z1)
+               IN IF Z.total[a] + 1 = kind.n THEN Connect(Z1, a, t) ELSE Z1)   \* k is the n-th subscription
 
 UnsubCmd(Z, k, t) ==
   LET a == Z.sapp[k]  Za == [Z EXCEPT !.asked = @ \cup {k}] IN
@@ -233,8 +251,10 @@ InitState == IF kind.wr = "auto" /\ kind.n = 0 THEN ConnectAll(S0, 1) ELSE S0   
 Raw == kind.wr = "none" /\ kind.mp = "none"
 Menu(t) ==
   {[Cmd("sub", a, S.nextId, t, 0) EXCEPT !.m = m] : a \in IF S.nextId <= NSubs THEN Apps ELSE {},
-                                                     m \in IF kind.mp = "none" /\ kind.w = NoneP THEN Modes ELSE {"all"}}
-  \cup {Cmd("unsub", S.sapp[k], k, t, 0) : k \in {j \in 1..(S.nextId - 1) : ReUnsub \/ j \notin S.asked}}
+                                                     m \in IF kind.mp = "none" /\ kind.w = NoneP
+                                                           THEN {x \in Modes : x = "spawn" => S.nextId + 1 <= NSubs}   \* needs an id for the child
+                                                           ELSE {"all"}}
+  \cup {Cmd("unsub", S.sapp[k], k, t, 0) : k \in {j \in 1..(S.nextId - 1) : S.sapp[j] # 0 /\ (ReUnsub \/ j \notin S.asked)}}
   \cup (IF Raw
         THEN {Cmd("connect", a, 0, t, IF S.connected[a] THEN S.epoch[a] ELSE S.epoch[a] + 1) : a \in Apps}
              \cup UNION {{Cmd("disconnect", a, 0, t, e) :
